@@ -41,12 +41,67 @@ THEOREMS = [
     "MysticVerif.C10.evallimits_spec",
     "MysticVerif.C10.timelimits_spec",
     "MysticVerif.C10.interrupt_spec",
+    # deepening (1): GradientNormTolerance for every norm, on the solver's gradient or approx_fprime of the raw cost
+    "MysticVerif.C10.gradp_eval",
+    "MysticVerif.C10.gradp_given",
+    "MysticVerif.C10.gradp_fallback",
+    "MysticVerif.C10.gradp_neginf_raises",
+    "MysticVerif.C10.approx_points_count",
+    "MysticVerif.C10.approx_points_head",
+    "MysticVerif.C10.bump_getElem?",
+    "MysticVerif.C10.approxFprime_length",
+    "MysticVerif.C10.approxFprime_affine",
+    "MysticVerif.C10.gradp_inf_eq_gradnorm",
+    "MysticVerif.C10.gradp_spec_inf",
+    "MysticVerif.C10.gradp_spec_zero",
+    "MysticVerif.C10.gradp_spec_fin",
+    "MysticVerif.C10.gradp_spec_fallback",
+    "MysticVerif.C10.gradp_fallback_witness",
 ]
 
 INF = float("inf")
 WARN = "Warning: Invalid termination condition (nPop < 2)"
 KINDS = ["vtr", "cog", "ncog", "crt", "solimp", "nct", "vtrcog", "popspread", "gradnorm",
-         "evallimits", "timelimits", "interrupt"]
+         "evallimits", "timelimits", "interrupt", "gradp", "gradp"]
+NAN = float("nan")
+EPS = 2.0 ** -26          # mystic._scipy060optimize._epsilon (checked against the module at import of mystic)
+
+
+class CostFn(object):
+    """the raw cost of the synthetic solver: c0 + sum_i (a_i x_i + b_i x_i^2), accumulated left to right in binary64;
+    records the points it is called at"""
+
+    def __init__(self, c0, a, b):
+        self.c0, self.a, self.b = c0, list(a), list(b)
+        self.calls = []
+
+    def __call__(self, x):
+        xs = [float(t) for t in x]
+        self.calls.append(xs)
+        s = self.c0
+        for xi, ai, bi in zip(xs, self.a, self.b):
+            s = (s + ai * xi) + bi * (xi * xi)
+        return s
+
+
+def own_approx(best, cost):
+    """forward differences as documented for approx_fprime, by this harness's own loop"""
+    f = CostFn(*cost)
+    f0 = f(best)
+    g = []
+    for k in range(len(best)):
+        x = [b + (EPS if j == k else 0.0) for j, b in enumerate(best)]
+        g.append((f(x) - f0) / EPS)
+    return g
+
+
+def eff_grad(v):
+    """the gradient GradientNormTolerance works on (None: it raises before)"""
+    if not v.get("gradnone"):
+        return list(v["grad"])
+    if v.get("cost") is None:
+        return None
+    return own_approx(v["best"], v["cost"])
 
 
 # ------------------------------------------------------------------ the synthetic solver view
@@ -150,6 +205,28 @@ def gen_view(rng, regime):
     v["early"] = rng.random() < 0.4
     v["clock"] = [dyadic(rng, 0, 64, 4), dyadic(rng, 0, 64, 4), dyadic(rng, 0, 64, 4)]
     v["np"] = rng.random() < 0.3          # energies stored as numpy.float64 (as real solvers do)
+    # malformed populations: ragged rows, trial / best of different lengths (never a length of 1: numpy broadcasts it)
+    if npop >= 2 and dim >= 2 and rng.random() < 0.04:
+        r = rng.randrange(npop)
+        v["pop"][r] = v["pop"][r][:-1] if rng.random() < 0.7 else v["pop"][r] + [0.0]
+    if dim >= 3 and rng.random() < 0.04:
+        if two_d and rows >= 2 and rng.random() < 0.5:
+            v["trial"][rng.randrange(rows)].pop()                       # ragged trial population
+        else:
+            v["trial"] = [r[:-1] for r in v["trial"]]                   # len(trial) = len(best) - 1 >= 2
+    # the gradient: supplied by the solver, or (as for every mystic solver) absent -> approx_fprime of the RAW cost
+    v["gradnone"] = rng.random() < 0.45
+    v["gradattr"] = rng.choice(["absent", "none", "lastnone"])
+    if rng.random() < 0.06:
+        v["cost"] = None                                                # a solver view without `_cost`
+    else:
+        if regime == "float":
+            co = lambda: rng.choice([0.0, 1.0, -1.0, gfloat(rng, 2.0)])
+        else:
+            co = lambda: float(rng.choice([0, 0, 1, -1, 2, -3])) * rng.choice([1.0, 0.5, 2.0 ** -12])
+        v["cost"] = [co(), [co() for _ in range(dim)], [co() for _ in range(dim)]]
+    if dim and rng.random() < 0.05:
+        v["grad"][rng.randrange(dim)] = rng.choice([1e200, -1e200, 1e-200, 3e154])
     return v
 
 
@@ -161,7 +238,15 @@ def make_solver(v):
     s.popEnergy = list(v["pope"])
     s.bestSolution = list(v["best"])
     s.trialSolution = [list(r) for r in v["trial"]] if v["trial2d"] else (list(v["trial"][0]) if v["trial"] else [])
-    s.gradient = [numpy.array(v["grad"], dtype=float)]
+    if not v.get("gradnone"):
+        s.gradient = [numpy.array(v["grad"], dtype=float)]
+    elif v.get("gradattr") == "none":
+        s.gradient = [None]
+    elif v.get("gradattr") == "lastnone":
+        s.gradient = [numpy.array(v["grad"], dtype=float), None]
+    if v.get("cost") is not None:
+        s._rawcost = CostFn(*v["cost"])
+        s._cost = (None, s._rawcost, ())
     s.generations = v["gens"]
     s._fcalls = [v["fcalls"]]
     s._EARLYEXIT = v["early"]
@@ -294,6 +379,18 @@ def gen_prim(rng, v, kind=None):
     if kind == "gradnorm":
         gr = [abs(x) for x in v["grad"] if x == x]
         return ("gradnorm", pick_tol(rng, max(gr) if gr else None))
+    if kind == "gradp":
+        p = rng.choice([0, 0.0, 1, 1.0, 2, 2.0, 2, 3, 4.0, 0.5, 1.5, 2.5, 7, -1.0, -2.0, 100.0, 1e-3, INF, INF, -INF, NAN])
+        g = eff_grad(v)
+        q = gradp_value(g, p) if g is not None else None
+        if gradp_class(g, p) == "exact":
+            return ("gradp", pick_tol(rng, q), p)
+        # inexact power / pairwise sum: the tolerance keeps a relative distance >= 2^-20 from the norm
+        if q is None or q != q or q in (INF, -INF):
+            q = abs(dyadic(rng, 0, 4, 8))
+        tol = rng.choice([q * (1 + 2.0 ** -16), q * (1 - 2.0 ** -16), 2 * q + 1.0, q / 2 - 0.125, 0.0, INF, -1.0])
+        _TOLTAGS.append("tol(toleranced-stream)")
+        return ("gradp", tol, p)
     if kind == "evallimits":
         def lim(cur):
             return rng.choice([None, None, 0, cur - 1, cur, cur + 1, cur + 10, -1])
@@ -306,6 +403,68 @@ def gen_prim(rng, v, kind=None):
         sec = rng.choice([el, ulp_up(el), ulp_dn(el), -el, 0.0, abs(el) + 1.0, 86400.0, INF])
         return ("timelimits", sec, sysm, start)
     return ("interrupt",)
+
+
+def _powp(x, p):
+    import math
+    try:
+        return math.pow(x, p)
+    except (OverflowError, ValueError, ZeroDivisionError):
+        return NAN
+
+
+def gradp_value(g, p):
+    """the documented norm sum(abs(g)**p)**(1/p) in floats (only used to aim tolerances and to decide far-from-boundary
+    cases); None when undefined"""
+    if g is None or p != p or p == -INF:
+        return None
+    if p == 0:
+        return float(sum(1 for x in g if x != 0.0))
+    if p == INF:
+        return max([abs(x) for x in g]) if g and all(x == x for x in g) else None
+    if any(x != x for x in g):
+        return None
+    s = 0.0
+    for x in g:
+        s = s + _powp(abs(x), p)
+    if s == 0.0 and p < 0:
+        return None
+    return _powp(s, 1.0 / p)
+
+
+def gradp_class(g, p):
+    """'exact': the real code's float evaluation is reproduced bit for bit by the model (every power is exactly
+    representable or a correctly rounded operation, the sum is sequential or exact); 'toleranced' otherwise"""
+    if g is None:
+        return "exact"
+    if p != p:
+        return "exact"
+    if p == 0 or p in (INF, -INF):
+        return "exact"
+    if not _finite(*g):
+        return "toleranced"
+    terms_exact = True
+    if p in (1, 2, 0.5, -1):
+        rounded = True
+    else:
+        rounded = False
+    if float(p) == int(p) and 1 <= p <= 8:
+        tot = Fraction(0)
+        for x in g:
+            t = abs(Fraction(x)) ** int(p)
+            tot += t
+            try:
+                if Fraction(float(t)) != t or Fraction(float(tot)) != tot:
+                    terms_exact = False
+            except OverflowError:
+                terms_exact = False
+    else:
+        terms_exact = False
+    if terms_exact:
+        return "exact"
+    if rounded and len(g) <= 7:
+        return "exact"
+    return "toleranced"
 
 
 def build_prim(spec, clock):
@@ -330,6 +489,8 @@ def build_prim(spec, clock):
         return T.PopulationSpread(spec[1])
     if k == "gradnorm":
         return T.GradientNormTolerance(spec[1])
+    if k == "gradp":
+        return T.GradientNormTolerance(spec[1], spec[2])
     if k == "evallimits":
         return T.EvaluationLimits(spec[1], spec[2])
     if k == "timelimits":
@@ -342,8 +503,24 @@ def oi(g):
     return "none" if g is None else str(int(g))
 
 
+_GRADNONE = [False]      # the view of the case being encoded has no solver gradient
+
+
+def norm_sexp(p):
+    if p == 0:
+        return "zero"
+    if p == INF:
+        return "inf"
+    if p == -INF:
+        return "neginf"
+    return "(fin %s)" % f2b(float(p))
+
+
 def prim_sexp(spec, oid, did):
     k = spec[0]
+    if k == "gradp" or (k == "gradnorm" and _GRADNONE[0]):
+        body = "gradnormP %s %s" % (f2b(spec[1]), norm_sexp(spec[2] if k == "gradp" else INF))
+        return "(p %d %d %s)" % (oid, did, body)
     if k == "vtr":
         body = "vtr %s %s" % (f2b(spec[1]), f2b(spec[2]))
     elif k in ("cog", "ncog"):
@@ -430,6 +607,10 @@ def exc_enum(exc):
         return "index"
     if isinstance(exc, ValueError):
         return "value"
+    if isinstance(exc, TypeError):
+        return "type"
+    if isinstance(exc, AttributeError):
+        return "attr"
     return "other:" + type(exc).__name__
 
 
@@ -481,8 +662,10 @@ def run_case(rng, regime=None):
     depth = rng.choice([0, 1, 1, 2, 2, 3, 4])
     e = gen_expr(rng, nprims, depth)
     same_clock = rng.random() < 0.7
-    case = execute({"regime": regime, "view": v, "specs": specs, "expr": e,
-                    "rclock": None if same_clock else [dyadic(rng, 0, 32, 4) for _ in range(3)]})
+    rclock = None if same_clock else [dyadic(rng, 0, 32, 4) for _ in range(3)]
+    auxp = rng.choice([None, 0, 1, 2, 2.0, 3, 4, 0.5, 1.5, 2.5, 7, -1.0, -2.0, 100.0, INF, -INF, NAN])
+    case = execute({"regime": regime, "view": v, "specs": specs, "expr": e, "rclock": rclock,
+                    "auxp": auxp, "auxw": rng.choice(["grad", "eff"])})
     case["toltags"] = list(_TOLTAGS)
     return case
 
@@ -562,17 +745,106 @@ def execute(case):
         except Exception as exc:   # noqa
             obs["state_keys_ok"] = "raise:" + type(exc).__name__
         obs["docs"] = {d: i for d, i in docs.items()}
+        aux = execute_aux(case, v, obs)
     rc = case["rclock"] if case["rclock"] is not None else [0.0, 0.0, 0.0]
     # when the clock at rebuilding is "the same", each TimeLimits restarts at its own start: the model takes
     # rclock for all three timers, so send per-primitive starts by giving the spec's start (see request below)
+    _GRADNONE[0] = bool(v.get("gradnone"))
+    cost = v.get("cost")
     line = ("C10 run (hist %s) (pop %s) (pope %s) (best %s) (trial %s) (trial2d %s) (grad %s) (gens %d) (fcalls %d) "
-            "(early %s) (clock %s) (rclock %s) (sameclock %s) (expr %s)") % (
+            "(early %s) (clock %s) (rclock %s) (sameclock %s) (gradnone %s) (cost %s) (expr %s)") % (
         fl(v["hist"]), fll(v["pop"]), fl(v["pope"]), fl(v["best"]), fll(v["trial"]),
         "true" if v["trial2d"] else "false", fl(v["grad"]), v["gens"], v["fcalls"],
         "true" if v["early"] else "false", fl(v["clock"]), fl(rc),
-        "true" if case["rclock"] is None else "false", expr_sexp(e, specs, dids))
-    case = dict(case); case["request"] = line; case["impl"] = obs
+        "true" if case["rclock"] is None else "false", "true" if v.get("gradnone") else "false",
+        "none" if cost is None else "(%s %s %s)" % (f2b(cost[0]), fl(cost[1]), fl(cost[2])),
+        expr_sexp(e, specs, dids))
+    case = dict(case); case["request"] = line; case["impl"] = obs; case["aux"] = aux
     return case
+
+
+def cost_sexp(cost):
+    return "none" if cost is None else "(%s %s %s)" % (f2b(cost[0]), fl(cost[1]), fl(cost[2]))
+
+
+def execute_aux(case, v, obs):
+    """the auxiliary correspondence streams of one case: approx_fprime on the raw cost (points and gradient, directly
+    and through one call of GradientNormTolerance) and Lnorm on the case's gradient.  Returns [(stream, request)]."""
+    import numpy
+    from mystic import termination as T
+    aux = []
+    obs["aux"] = {}
+    if v.get("cost") is not None:
+        from mystic._scipy060optimize import approx_fprime, _epsilon
+        f = CostFn(*v["cost"])
+        r = call(approx_fprime, list(v["best"]), f, _epsilon)
+        a = {"eps_ok": _epsilon == EPS, "pts": [list(c) for c in f.calls],
+             "grad": [float(t) for t in r[1]] if r[0] == "ok" else "err-" + r[1]}
+        if v.get("gradnone"):
+            solver2 = make_solver(v)
+            call(T.GradientNormTolerance(1.0, 2), solver2)
+            a["via_term"] = [list(x) for x in solver2._rawcost.calls]
+            a["fcalls_after"] = solver2._fcalls[0]
+        obs["aux"]["approx"] = a
+        aux.append(("approx", "C10 approx (best %s) (cost %s)" % (fl(v["best"]), cost_sexp(v["cost"]))))
+    auxp = case.get("auxp")
+    if auxp is not None:
+        from mystic.math.distance import Lnorm
+        w = eff_grad(v)
+        if w is None or case.get("auxw") == "grad":
+            w = list(v["grad"])
+        r = call(Lnorm, numpy.array(w, dtype=float), auxp, 0)
+        obs["aux"]["lnorm"] = {"class": gradp_class(w, auxp), "w": w,
+                               "value": float(r[1]) if r[0] == "ok" else "err-" + r[1]}
+        aux.append(("lnorm", "C10 lnorm (w %s) (norm %s)" % (fl(w), norm_sexp(auxp))))
+    return aux
+
+
+def compare_aux(case, replies):
+    """[(stream, difference)] and histogram tags for the auxiliary streams"""
+    diffs = []; tags = []
+    for (stream, _req), rep in zip(case["aux"], replies):
+        r = parse_reply(rep)
+        if stream == "approx":
+            a = case["impl"]["aux"]["approx"]
+            if r[0] != "ok":
+                diffs.append((stream, "model replied %r" % (rep,))); continue
+            kv = r[1]
+            if not a["eps_ok"]:
+                diffs.append((stream, "_epsilon is not 2**-26"))
+            mpts = [[common.b2f(t) for t in row] for row in kv["pts"]]
+            ipts = a["pts"]
+            if [[f2b(x) for x in row] for row in mpts] != [[f2b(x) for x in row] for row in ipts]:
+                diffs.append((stream, "approx_fprime evaluates the cost at %r, the model at %r" % (ipts, mpts)))
+            if isinstance(a["grad"], str):
+                diffs.append((stream, "approx_fprime raised %s" % a["grad"]))
+            elif [f2b(x) for x in a["grad"]] != [f2b(common.b2f(t)) for t in kv["grad"]]:
+                diffs.append((stream, "approx_fprime gradient %r, model %r" % (a["grad"], [common.b2f(t) for t in kv["grad"]])))
+            tags.append("aux:approx:dim%s" % (len(ipts) - 1 if len(ipts) < 5 else "4+"))
+            if "via_term" in a:
+                tags.append("aux:approx-via-termination")
+                if [[f2b(x) for x in row] for row in a["via_term"]] != [[f2b(x) for x in row] for row in mpts]:
+                    diffs.append(("approx-via-termination", "GradientNormTolerance evaluated the raw cost at %r, the model says %r"
+                                  % (a["via_term"], mpts)))
+        elif stream == "lnorm":
+            a = case["impl"]["aux"]["lnorm"]
+            tags.append("aux:lnorm:%s:%s" % (a["class"], "err" if isinstance(a["value"], str) else "value"))
+            if isinstance(a["value"], str):
+                if not (r[0] == "err" and "err-" + r[1] == a["value"]):
+                    diffs.append((stream, "Lnorm raises %s, model replies %r" % (a["value"], rep)))
+                continue
+            if r[0] != "ok":
+                diffs.append((stream, "Lnorm returns %r, model replies %r" % (a["value"], rep))); continue
+            m = common.b2f(r[1]["norm"])
+            x = a["value"]
+            if a["class"] == "exact":
+                if f2b(m) != f2b(x) and not (m != m and x != x) and not (m == 0.0 and x == 0.0):
+                    diffs.append((stream, "Lnorm(%r, %r) = %r, model %r (exactness regime)" % (a["w"], case.get("auxp"), x, m)))
+            else:
+                ok = (m != m and x != x) or m == x or (_finite(m, x) and abs(m - x) <= 1e-9 * max(abs(m), abs(x)))
+                if not ok:
+                    diffs.append((stream, "Lnorm(%r, %r) = %r, model %r (toleranced 1e-9)" % (a["w"], case.get("auxp"), x, m)))
+    return diffs, tags
 
 
 # ------------------------------------------------------------------ monitor: the documented inequalities
@@ -727,8 +999,42 @@ def spec_expected(spec, v):
                         raise Skip("nonfinite")
                 res.append(le_decide([(lambda a, b: (lambda N: (abs(nz(N, a) - nz(N, b)), nz(N, tol) * abs(nz(N, b)))))(a, b)]))
         return all(res), tol < 0
-    if k == "gradnorm":
-        g = v["grad"]
+    if k == "gradp" and not (spec[2] == INF):
+        tol, p = spec[1], spec[2]
+        g = eff_grad(v)
+        if g is None or p == -INF:
+            raise Skip("malformed")
+        if p != p:
+            raise Skip("nan-norm")                   # the documented formula has no meaning (IEEE: 1**nan = 1)
+        if p == 0:
+            return (sum(1 for x in g if x != 0.0) <= tol), False
+        if any(x != x for x in g):
+            return False, False
+        if tol != tol:
+            return False, False
+        mech = "gradp/fp-error-falls-back-to-inf-norm" if fp_trouble(g, p) else (
+            "gradp/power-underflows" if fp_underflow(g, p) else False)
+        if float(p) == int(p) and 1 <= p <= 100 and _finite(*g):
+            if tol == INF:
+                return True, mech
+            if tol < 0:
+                return False, mech
+            if not g:
+                return True, mech
+            lhs = sum(abs(Fraction(x)) ** int(p) for x in g); rhs = Fraction(tol) ** int(p)
+            if lhs != rhs and abs(lhs - rhs) <= Fraction(1, 10 ** 12) * max(lhs, rhs):
+                raise Skip("rounding")
+            return lhs <= rhs, mech
+        q = gradp_value([abs(x) for x in g], p)
+        if q is None or q != q:
+            raise Skip("nonfinite")
+        if q != tol and _finite(q, tol) and abs(q - tol) <= 1e-9 * max(abs(q), abs(tol)):
+            raise Skip("rounding")
+        return q <= tol, mech
+    if k in ("gradnorm", "gradp"):
+        g = eff_grad(v)
+        if g is None:
+            raise Skip("malformed")
         if not g:
             raise Skip("malformed")
         if any(x != x for x in g):
@@ -741,6 +1047,47 @@ def spec_expected(spec, v):
         i = {None: 0, True: 1, False: 2}[spec[2]]
         return le_decide([lambda N: (abs(nz(N, spec[1])), nz(N, v["clock"][i]) - nz(N, spec[3][i]))]), False
     return bool(v["early"]), False
+
+
+def fp_trouble(g, p):
+    """would sum(abs(g**p))**(1/p) raise FloatingPointError (overflow / invalid) in binary64?  (Lnorm then silently uses
+    the infinity norm instead of the documented p-norm)"""
+    import math
+    if any(x < 0 for x in g) and float(p) != int(p):
+        return True                                   # negative base, fractional power: invalid
+    s = 0.0
+    for x in g:
+        if not _finite(x) or x == 0.0:
+            t = _powp(abs(x), p) if x != 0.0 or p > 0 else INF
+        else:
+            try:
+                t = math.pow(abs(x), p)
+            except OverflowError:
+                return True
+            if t == INF:
+                return True
+        s2 = s + t
+        if s2 == INF and _finite(s, t):
+            return True
+        s = s2
+    if _finite(s) and s != 0.0:
+        try:
+            r = math.pow(s, 1.0 / p)
+        except OverflowError:
+            return True
+        if r == INF:
+            return True
+    return False
+
+
+def fp_underflow(g, p):
+    """does some non-zero |x|**p underflow (to zero or into the subnormals) in binary64?"""
+    for x in g:
+        if x != 0.0 and _finite(x):
+            t = _powp(abs(x), p)
+            if t == t and t < 2.2250738585072014e-308:
+                return True
+    return False
 
 
 def den(e, verdict):
@@ -823,7 +1170,10 @@ def monitor(case):
             continue
         hist["mon-prim:%s:%s" % (spec[0], "sat" if want else "unsat")] = hist.get("mon-prim:%s:%s" % (spec[0], "sat" if want else "unsat"), 0) + 1
         if want != verdict[i]:
-            key = ("%s/negative-tolerance" % spec[0]) if (neg and verdict[i] and not want) else ("%s/documented-inequality" % spec[0])
+            if isinstance(neg, str):
+                key = neg
+            else:
+                key = ("%s/negative-tolerance" % spec[0]) if (neg and verdict[i] and not want) else ("%s/documented-inequality" % spec[0])
             out.append((key, "%r is %s although its documented inequality is %s (history %r)" % (
                 spec, "satisfied" if verdict[i] else "not satisfied", "true" if want else "false", v["hist"][-6:])))
     # 5. rebuilt from type + state behaves identically (TimeLimits: only when rebuilt at the same clock reading)
@@ -877,6 +1227,9 @@ def show_expr(e):
     if e[0] == "when":
         return "When(%s)" % show_expr(e[1])
     return "%s(%s)" % (e[0].capitalize(), ", ".join(show_expr(x) for x in e[1]))
+
+
+SLIM = ("regime", "view", "specs", "expr", "rclock", "auxp", "auxw", "request", "impl", "model", "aux", "auxmodel")
 
 
 # ------------------------------------------------------------------ comparison with the model
@@ -981,6 +1334,21 @@ def drive(lines, tries=40):
     raise last
 
 
+def drive_cases(cases):
+    """main and auxiliary requests of the cases through the driver: ([main reply], [[aux replies]])"""
+    lines = []
+    for c in cases:
+        lines.append(c["request"])
+        lines.extend(req for _s, req in c["aux"])
+    allrep = drive(lines)
+    replies = []; auxrep = []
+    pos = 0
+    for c in cases:
+        replies.append(allrep[pos]); auxrep.append(allrep[pos + 1: pos + 1 + len(c["aux"])])
+        pos += 1 + len(c["aux"])
+    return replies, auxrep
+
+
 def run_shard(pid, seed, shard, ncases, tier, extra):
     import numpy
     common.import_mystic()
@@ -991,10 +1359,11 @@ def run_shard(pid, seed, shard, ncases, tier, extra):
     for k in range(ncases):
         rng = case_rng(PID, seed, shard, k)
         cases.append(run_case(rng))
-    replies = drive([c["request"] for c in cases])
+    replies, auxrep = drive_cases(cases)
     nontrivial = 0
     samples = []
     per_class = {}
+    naux = 0
 
     def keep(kind, key, what, slim):
         # every finding is counted in the histogram; at most 5 full cases per class and shard are carried back
@@ -1002,14 +1371,21 @@ def run_shard(pid, seed, shard, ncases, tier, extra):
         hist["finding:%s:%s" % (kind, key)] = hist.get("finding:%s:%s" % (kind, key), 0) + 1
         if per_class[(kind, key)] <= 5:
             findings.append(Finding(kind, key, what, slim))
-    for c, rep in zip(cases, replies):
-        if rep.strip() == "bad-op":
-            raise RuntimeError("driver answered bad-op for " + c["request"])
+    for c, rep, arep in zip(cases, replies, auxrep):
+        if rep.strip() == "bad-op" or any(a.strip() == "bad-op" for a in arep):
+            raise RuntimeError("driver answered bad-op for " + c["request"] + " / " + repr(c["aux"]))
         diffs, kv = compare(c, rep)
         c["model"] = rep
-        slim = {k: c[k] for k in ("regime", "view", "specs", "expr", "rclock", "request", "impl", "model")}
+        c["auxmodel"] = list(arep)
+        slim = {k: c.get(k) for k in SLIM}
         if diffs:
             keep("correspondence", "termination/diverges", "; ".join(diffs), slim)
+        adiffs, atags = compare_aux(c, arep)
+        naux += len(arep)
+        for stream, d in adiffs:
+            keep("correspondence", "%s/diverges" % stream, d, slim)
+        for t in atags:
+            hist[t] = hist.get(t, 0) + 1
         for key, what in monitor(c):
             keep("monitor", key, what, slim)
         for t, n in c.get("mon_hist", {}).items():
@@ -1024,7 +1400,7 @@ def run_shard(pid, seed, shard, ncases, tier, extra):
             nontrivial += 1
             if len(samples) < 2 and d >= 2:
                 samples.append(slim)
-    return {"evaluations": len(cases), "nontrivial": nontrivial, "model_lines": len(cases), "findings": findings,
+    return {"evaluations": len(cases), "nontrivial": nontrivial, "model_lines": len(cases) + naux, "findings": findings,
             "samples": samples, "hist": hist}
 
 
@@ -1058,6 +1434,20 @@ def fixed_cases():
     out.append({"regime": "fixed", "view": _view([2.0, 2.0]), "specs": [("vtrcog", -1.0, -1.0, 1, 0.0)], "expr": P0, "rclock": None})
     out.append({"regime": "fixed", "view": _view([1.0]), "specs": [("nct", 1.0, -1.0, 0)], "expr": P0, "rclock": None})
     out.append({"regime": "fixed", "view": _view([1.0]), "specs": [("popspread", -1.0)], "expr": P0, "rclock": None})
+    # GradientNormTolerance: the floating-point fallback to the infinity norm, underflow of the power (known findings),
+    # every norm on a supplied gradient and on the approx_fprime fallback (cost 1 + 3 x0 + x1^2 at best [1, 2])
+    gv = dict(best=[1.0, 2.0], cost=[1.0, [3.0, 0.0], [0.0, 1.0]], gradattr="absent")
+    out.append({"regime": "fixed", "view": _view(h, grad=[-1.0, -1.0], gradnone=False, **gv),
+                "specs": [("gradp", 1.2, 1.5)], "expr": P0, "rclock": None, "auxp": 1.5, "auxw": "grad"})
+    out.append({"regime": "fixed", "view": _view(h, grad=[1e200, 1e200], gradnone=False, **gv),
+                "specs": [("gradp", 1.2e200, 2)], "expr": P0, "rclock": None, "auxp": 2, "auxw": "grad"})
+    out.append({"regime": "fixed", "view": _view(h, grad=[2.0 ** -19, 0.0], gradnone=False, **gv),
+                "specs": [("gradp", 0.0, 100.0)], "expr": P0, "rclock": None, "auxp": 100.0, "auxw": "grad"})
+    for p_ in (0, 1, 2, 3, 0.5, -1.0, INF, -INF, NAN):
+        for gn in (False, True):
+            out.append({"regime": "fixed", "view": _view(h, grad=[3.0, -4.0], gradnone=gn, **gv),
+                        "specs": [("gradp", 5.0, p_), ("gradp", 4.0, p_), ("gradnorm", 4.0)],
+                        "expr": ("or", [P0, P1, ("p", 2)]), "rclock": None, "auxp": p_, "auxw": "eff"})
     # windows: 0 reads the first entry; len and len+1 are "not yet"
     for g in (0, 1, 2, 3, 4, None, 2.75):
         out.append({"regime": "fixed", "view": _view(h), "specs": [("cog", 0.0, g), ("ncog", 0.0, g), ("nct", None, 0.0, g)],
@@ -1070,14 +1460,17 @@ def run_fixed():
     common.import_mystic()
     numpy.seterr(all="ignore")
     cases = [execute(c) for c in fixed_cases()]
-    replies = drive([c["request"] for c in cases])
+    replies, auxrep = drive_cases(cases)
     findings = []
-    for c, rep in zip(cases, replies):
+    for c, rep, arep in zip(cases, replies, auxrep):
         diffs, kv = compare(c, rep)
         c["model"] = rep
-        slim = {k: c[k] for k in ("regime", "view", "specs", "expr", "rclock", "request", "impl", "model")}
+        c["auxmodel"] = list(arep)
+        slim = {k: c.get(k) for k in SLIM}
         if diffs:
             findings.append(Finding("correspondence", "termination/diverges", "; ".join(diffs), slim))
+        for stream, d in compare_aux(c, arep)[0]:
+            findings.append(Finding("correspondence", "%s/diverges" % stream, d, slim))
         for key, what in monitor(c):
             findings.append(Finding("monitor", key, what, slim))
     return findings, len(cases)
@@ -1149,9 +1542,11 @@ def replay(path):
     def tup(e):
         return ("p", e[1]) if e[0] == "p" else (("when", tup(e[1])) if e[0] == "when" else (e[0], [tup(x) for x in e[1]]))
     case = execute({"regime": cs["regime"], "view": cs["view"], "specs": [tuple(s) for s in cs["specs"]],
-                    "expr": tup(cs["expr"]), "rclock": cs["rclock"]})
-    rep = drive([case["request"]])[0]
+                    "expr": tup(cs["expr"]), "rclock": cs["rclock"], "auxp": cs.get("auxp"), "auxw": cs.get("auxw")})
+    reps, areps = drive_cases([case])
+    rep = reps[0]
     diffs, kv = compare(case, rep)
+    diffs = diffs + ["%s: %s" % sd for sd in compare_aux(case, areps[0])[0]]
     mons = monitor(case)
     known = {e["class_key"] for e in framework.load_known(PID)}
     print("replay %s: expression %s" % (path, show_expr(case["expr"])))
